@@ -1,4 +1,5 @@
 import PysnarkModel.Model.AtExit
+import PysnarkModel.Gen.Api
 import PysnarkModel.Gen.Constants
 /-!
 # C18 — proof artefacts are emitted at exit only for successful runs, and completely
@@ -306,5 +307,13 @@ example : runScript (mk 7 7 [] .fallOff false true)
     = { status := 0, proveCalls := 0, provedOps := 0, hookFailed := false, skippedMsg := false } := by decide
 -- the last recorded exit wins
 example : (runScript (mk 7 7 [.int 3, .int 0] .fallOff true false)).proveCalls = 1 := by decide
+
+
+/-- **API surface pinned** (regenerated from the source on every run, `Gen/Api.lean`): the methods the model of this
+property transcribes are exactly the methods the code has.  A method added to the code (say an in-place `__iadd__`, which
+Python would prefer over the `__add__` the model knows) or removed from it changes the generated list and this obligation
+fails: the tie is then broken by construction and the check runs its extended search. -/
+theorem C18_api_surface :
+    Gen.api_atexitmaybe = ["ExitOverrider.__init__", "ExitOverrider.exit", "ExitOverrider.excepthook", "maybe"] := rfl
 
 end Pysnark
